@@ -39,7 +39,7 @@ def run(cx, tier='quick'):
     rep.floor('DISP', 12)
     rep.floor('MODELS-OWN', 80)
     rep.floor('IMPORTS', 60)
-    rep.floor('TRAITS-USE', 40)
+    rep.floor('TRAITS-USE', 100)
     rep.floor('ATTRS-READ', 60)
     rep.not_decided += []
     rep.assumptions += ['the three couplings Copy/Clone, Eq/PartialEq, PartialOrd/Ord are the documented ones']
@@ -242,6 +242,17 @@ def check_traits_use(cx, facts, rep):
     for f in cx.crate.fns:
         fw = cx.fw(f)
         pd = [d for d in fw.param_defs if d.name == 'traits']
+        # what a scanner is told is the educed set: the set this function received, not one made up on the spot (with a narrower set
+        # the scanner refuses the attributes of the other educed traits as "not used": their presence breaks this trait's derive)
+        for ev in fw.events:
+            if ev.kind == 'mcall' and ev.method == 'build_from_attributes' and len(ev.args) >= 2 and f.name != 'build_from_attributes':
+                x = strip_refs(ev.args[1])
+                cd = ev.scope.lookup(x['path']['s']) if x['k'] == 'Path' and len(x['path']['segs']) == 1 else None
+                if cd is not None and cd.kind == 'param' and any(cd is d_ for d_ in fw.param_defs):
+                    rep.ok('TRAITS-USE', '%s|scanner-told-educed-set|%d' % (f.qname, len([e_ for e_ in fw.events if e_.kind == 'mcall' and e_.method == 'build_from_attributes' and e_.seq <= ev.seq])))
+                else:
+                    rep.bad('TRAITS-USE', f.qname, 'scanner-traits-arg', 'the scanner is not given the educed-trait set this function received but `%s`%s: attributes of the traits missing from it are refused as "not used", so another trait\'s attribute breaks this one' % (
+                        es(ev.args[1])[:40], (' (a local defined at line %s)' % cd.line) if cd is not None and cd.kind != 'param' else ''), f.file, ev.line)
         if not pd and f.name != 'derive_input_handler' and f.name != 'supertraits':
             continue
         X = cx.trait_of_module(f.module)
